@@ -99,13 +99,18 @@ def run_whole(start, stop, collect, npop):
     return None
 
 
-def run_single_steps(stop, nsteps, npop):
-    """externally driven: Model.run_step(step) for step = 0..nsteps-1 (round 0)"""
+def run_single_steps(stop, nsteps, npop, collect=None):
+    """externally driven: Model.run_step(step) for step = 0..nsteps-1 (round 0); collect None = the default (on).
+    With data collection switched off a single step records statistics only if it is the final step of the run
+    (round 0 is the final round only for stop = 0, which is outside)."""
     try:
         m = new_model(0, stop, npop)
         ids = [a.id for a in m.agents]
         for s in range(nsteps):
-            m.run_step(s)
+            if collect is None:
+                m.run_step(s)
+            else:
+                m.run_step(s, collect_data=collect)
     except Exception as ex:  # noqa
         return "run_step raised %r" % (ex,)
     want = []
@@ -116,9 +121,10 @@ def run_single_steps(stop, nsteps, npop):
             want.append(("handle", i, t))
             want.append(("act", i, t))
         want.append(("end", 0, s, t))
-        want.append(("collect", tuple(ids), t))
+        if collect is None or collect:
+            want.append(("collect", tuple(ids), t))
     if m.log != want:
-        return "single-step log differs: %r vs %r" % (m.log[:6], want[:6])
+        return "single-step log (collect_data=%r) differs: %r vs %r" % (collect, m.log[:8], want[:8])
     return None
 
 
@@ -141,13 +147,13 @@ def _whole_twin(start: int, stop: int, collect: bool, npop: int) -> bool:
     return run_whole(start, stop, collect, npop) is None
 
 
-def _single(stop: int, nsteps: int, npop: int) -> bool:
+def _single(stop: int, nsteps: int, npop: int, collect: int) -> bool:
     """
-    pre: 1 <= stop <= 3 and 0 <= nsteps <= 4 and 0 <= npop <= 3
+    pre: 1 <= stop <= 3 and 0 <= nsteps <= 4 and 0 <= npop <= 3 and 0 <= collect <= 2
     post: _
     """
-    stop, nsteps, npop = _conc(stop, 1, 3), _conc(nsteps, 0, 4), _conc(npop, 0, 3)
-    return run_single_steps(stop, nsteps, npop) is None
+    stop, nsteps, npop, collect = _conc(stop, 1, 3), _conc(nsteps, 0, 4), _conc(npop, 0, 3), _conc(collect, 0, 2)
+    return run_single_steps(stop, nsteps, npop, [None, True, False][collect]) is None
 
 
 def run_with_deletion(stop, npop, deleter, victim, when):
